@@ -90,7 +90,7 @@ for _n, _p in {
     'stack': 'lambda a: np.stack((a, a))', 'hstack': 'lambda a: np.hstack((a, a))', 'tile': 'lambda a: np.tile(a, 2)',
     'pad': 'lambda a: np.pad(a, 1)', 'cumsum': 'lambda a: np.cumsum(a)', 'nonzero': 'lambda a: np.nonzero(a)',
     'array_equal': 'lambda a: np.array_equal(a, a)', 'isscalar': 'lambda a: np.isscalar(a)',
-    'arange': 'lambda a: np.arange(a.size)', 'ones': 'lambda a: np.ones(a.shape)', 'zeros': 'lambda a: np.zeros(a.shape)',
+    'ndim': 'lambda a: np.ndim(a)', 'arange': 'lambda a: np.arange(a.size)', 'ones': 'lambda a: np.ones(a.shape)', 'zeros': 'lambda a: np.zeros(a.shape)',
     'allclose': 'lambda a: np.allclose(np.sum(a), 1.0)', 'issubdtype': 'lambda a: np.issubdtype(a.dtype, np.integer)',
     'argmax': 'lambda a: np.argmax(a)', 'nanargmax': 'lambda a: np.nanargmax(a)', 'ceil': 'lambda a: np.ceil(a)',
     'dot': 'lambda a: np.dot(a.ravel(), a.ravel())', 'indices': 'lambda a: np.indices(a.shape)',
@@ -216,6 +216,9 @@ EXT.update({
     'photutils.utils._stats.nanstd': _row('fresh', 'lambda a: pstats.nanstd(a, axis=0)'),
     'photutils.utils._stats.nanvar': _row('fresh', 'lambda a: pstats.nanvar(a, axis=0)'),
     'builtins.setattr': _row('scalar'),         # handled in code: writes arg 0, which then reaches arg 2
+    'astropy.nddata.reshape_as_blocks': _row('maybe', 'lambda a: reshape_as_blocks(a, (1,) * a.ndim)'),
+    'astropy.nddata.block_replicate': _row('fresh', 'lambda a: block_replicate(a, 2)'),
+    'numpy.float32': _row('scalar'),
     'astropy.nddata.overlap_slices': _row('scalar'), 'astropy.nddata.NoOverlapError': _row('scalar'),
     'astropy.nddata.extract_array': _row('maybe', "lambda a: extract_array(a, (3,) * a.ndim, (2,) * a.ndim, mode='trim')"),
     'photutils.utils.exceptions.NoDetectionsWarning': _row('scalar'),
@@ -876,11 +879,28 @@ class Translator:
         if org is not None and f'{org}.__call__' in EXT:
             return self.apply_row(F, n, f'{org}.__call__', EXT[f'{org}.__call__'], callee, pos, kw)
         if name in self.assume_callables:
-            # assumption recorded in the evidence: the callable itself obeys the property
-            self.assumed.add(f'callable:{name}: {self.assume_callables[name]}')
+            # assumption recorded in the evidence.  A plain text = the callable obeys the property
+            # itself (writes nothing, result may alias anything); a dict gives its summary:
+            # positional arguments written through and the kind of result
+            spec = self.assume_callables[name]
+            text = spec if isinstance(spec, str) else spec['text']
+            self.assumed.add(f'callable:{name}: {text}')
             args = [v for v in [callee] + pos + list(kw.values()) if v is not None]
+            muts, ret = [], 'alias'
+            if isinstance(spec, dict):
+                if spec.get('when_kw'):          # e.g. copy=False
+                    k_, val_ = spec['when_kw']
+                    if self.const_kw(n, k_) != val_:
+                        self.fail(F, n, f'callable `{name}`: summary only covers {k_}={val_}')
+                muts = [pos[i] for i in spec.get('mut', ()) if i < len(pos) and pos[i] is not None]
+                ret = spec.get('ret', 'alias')
             t = self.tmp(F, 'cr')
-            self.emit(('Call', t, [], args))
+            if ret == 'fresh':
+                for m in muts:
+                    self.emit(('InPlace', m))
+                self.emit(('Assign', t, ('EFresh',)))
+            else:
+                self.emit(('Call', t, muts, args))
             return t
         self.fail(F, n, f'call of unknown callable `{name}`')
 
